@@ -51,7 +51,7 @@ def generate(chk, maxlen, scripts=None):
     return r.emits()
 
 
-def execute(script, outlen_mode, as_path, tmp, tag, check_first=0, stale=False):
+def execute(script, outlen_mode, as_path, tmp, tag, check_first=0, stale=False, overwrite=False, check_between=False):
     """returns dict of observations"""
     import scared
     n, L = len(script), 5
@@ -97,7 +97,7 @@ def execute(script, outlen_mode, as_path, tmp, tag, check_first=0, stale=False):
         old = scared.traces.read_ths_from_ram(samples=np.full((n + 2, 3), 9, dtype='int16'), id=np.arange(900, 902 + n, dtype='int64'), plaintext=np.zeros((n + 2, 4), dtype='uint8'))
         o_ths = scared.Synchronizer(old, fn, lambda trace_object: np.asarray(trace_object.samples[:])).run()
         o_ths.close()
-    s = scared.Synchronizer(ths, Path(fn) if as_path else fn, f)
+    s = scared.Synchronizer(ths, Path(fn) if as_path else fn, f, **({'overwrite': True} if overwrite else {}))
     holder['s'] = s
     obs = {'error': None}
     if check_first:
@@ -130,6 +130,17 @@ def execute(script, outlen_mode, as_path, tmp, tag, check_first=0, stale=False):
         except Exception as ex:
             obs['inconsistent'] = f'{type(ex).__name__}: {ex}'[:200]
     before = (int(s.processed_counter), int(s.synchronized_counter))
+    if check_between:
+        # a dry check() between the two run() calls (an observer: it changes neither the counters nor the single-use guard)
+        ncalls = len(calls)
+        try:
+            np.random.seed(len(script))
+            s.check(nb_traces=1)
+        except Exception as ex:           # noqa
+            obs['check_error'] = repr(ex)[:100]
+        del calls[ncalls:]
+        if before != (int(s.processed_counter), int(s.synchronized_counter)):
+            obs['check_changed_counters'] = True
     try:
         s.run()
         obs['second'] = 'accepted'
@@ -182,6 +193,8 @@ def judge(e, obs, stale=False):
                 return 'each output trace carries the metadata of its originating trace, in input order'
             if obs['rows'][pos] != obs['_expected_rows'][k]:
                 return 'each output trace holds exactly the data the user function returned for it'
+    if obs.get('check_changed_counters'):
+        return 'check() changes neither the counters nor the output'
     if obs['second'] != 'refused' or obs['second_changed']:
         return f'a second run() is refused and changes nothing ({obs["second"]})'
     return None
@@ -203,6 +216,8 @@ def run(chk):
             post = [rng.choice('ARN') for _ in range(rng.randint(1, 6))]
             longs.append(pre + ['A'] + [rng.choice('RN') for _ in range(runlen)] + ['A'] + post)
     longs.append([rng.choice('RN') for _ in range(20)])            # all rejected, long
+    longs.append(['A'] * 34 + ['R', 'N'] + ['A'] * 9)             # more accepted traces than any writer-side buffering / checkpointing period
+    longs.append(['A'] * 70)
     longs.append([rng.choice('ARN') for _ in range(70)])
     emitted += generate(chk, 0, scripts=longs)
     tmp = tempfile.mkdtemp(prefix='verif_c20_')
@@ -213,7 +228,7 @@ def run(chk):
                 continue
             variants = [('same', False)] if (q and j % 4) else [('same', False), ('longer', True), ('one', j % 2 == 0)]
             for mode, as_path in variants:
-                obs = execute(script, mode, as_path, tmp, f'{j}_{mode}', check_first=(2 if e.get('checked') else 0))
+                obs = execute(script, mode, as_path, tmp, f'{j}_{mode}', check_first=(2 if e.get('checked') else 0), overwrite=(j % 3 == 1), check_between=(j % 2 == 1))
                 bad = judge(e, obs)
                 if len(RECORDED) < 4000:
                     RECORDED.append(({'ev': obs['events'], 'final': {'processed': obs['processed'], 'synchronized': obs['synchronized'],
